@@ -271,8 +271,8 @@ def run_case(case):
         sess.sim.scripts[dest] = list(chunks)
         n_before = len(sess.sim.all_streams)
         kw = {}
-        if case["kind"] == "rand":
-            # generous explicit timeouts must not change anything against a cooperating device
+        if case["kind"] == "rand" and not dims.get("pace"):
+            # generous explicit timeouts must not change anything against a cooperating (and instantaneous) device
             if rng.random() < 0.3:
                 kw["read_timeout_s"] = rng.choice([3, 10, 60])
             if rng.random() < 0.3:
